@@ -1,7 +1,8 @@
 /-
 C01 — integer expressions have the C11 value and the C11 type.
 
-Property theorems only (definitions and helper lemmas: Lemmas/C01Lemmas, C01OpLemmas, C01ArithLemmas, C01Select, C01MemLemmas).
+Property theorems only (definitions and helper lemmas: Model/C01Expr, Lemmas/C01Lemmas, C01OpLemmas, C01ArithLemmas,
+C01Select, C01MemLemmas, C01Compose, C01Frame, C01Value).
 
 Objects:
 * `Gen.CommonType.getCommonType`, `opRule`  — regenerated from type.c on every check (translator);
@@ -16,6 +17,7 @@ Every theorem is for all register contents (2^64 each) / all operand values, not
 -/
 import ChibiVerif.Lemmas.C01Select
 import ChibiVerif.Lemmas.C01Compose
+import ChibiVerif.Lemmas.C01Value
 
 namespace ChibiVerif.Props.C01
 open ChibiVerif.C01 ChibiVerif.X86 ChibiVerif.Asm ChibiVerif.Spec.IntSpec ChibiVerif.Gen.CommonType ChibiVerif.C01Codegen
@@ -197,23 +199,38 @@ theorem C01_store (t : ITy) (s : State) (p : BitVec 64) (v : Int) (hp : s.read64
       s'.get .rsp = s.get .rsp + 8 :=
   store_ok t s p v hp h
 
-/-! ## composition (open) -/
+/-! ## composition -/
 
-/-- **value of every side-effect-free expression, arbitrary nesting** (DESIGN `C01_value`, pure fragment): the code
-    `compileE` assembles from the conversion / operator / load sequences above leaves `%rax` representing the C11 value in
-    the C11 type, with `%rsp`, `%rbp` and the frame unchanged.  NOT PROVED: it needs the push/pop stack discipline
-    (non-interference of `push` with the frame) by induction on the expression; the per-node facts it composes are
-    `C01_load`, `C01_cast`, `C01_unary_full`, `C01_lognot`, `C01_binop`, `C01_shift`, `C01_op_type`.  Until then the
-    composition is covered by the end-to-end oracle (random nests to depth 6), which is testing. -/
-def C01_value_Statement : Prop :=
-  ∀ (σ : Env) (off : Nat → Int) (e : E) (t : ITy) (code : List Ins) (v : Int) (σ' : Env) (m : State),
-    compileE σ.tys off e = some (t, code) → evalE σ e = some (v, σ') → FrameHolds σ off (depthE e) m →
+/-- **value of every side-effect-free expression, arbitrary nesting** (DESIGN `C01_value`, pure fragment): for every
+    expression tree `e` built from literals, variables, casts, unary `+ - ~ !` and the sixteen binary operators, every
+    store `σ`, every machine state `m` whose frame holds `σ` (variable `i` at `off i (%rbp)`, frame above `%rsp`) with
+    `depthE e` free stack slots: if `compileE` assembles `code` of type `t` and C11 defines the value `v` of `e`
+    (`evalE`: no signed overflow, division by zero, out-of-range shift … anywhere in the tree), then `code` runs without a
+    CPU fault and leaves `%rax` representing `v` in type `t`, `t` is the C11 type of `e`, `%rsp` and `%rbp` are unchanged,
+    the frame still holds the store — and (added to the statement as first written, needed by the induction) every byte
+    at or above `%rsp` is unchanged and the store is unchanged.  By induction on `e` through the push/pop discipline of
+    `gen_expr` (`bin_glue`), composing `C01_load`, `C01_cast`, `C01_unary_full`, `C01_lognot`, `C01_binop`, `C01_shift`,
+    `C01_rel_swapped`, `C01_op_type` with the frame lemmas of Lemmas/C01Frame.lean.  `compileE` is tied to `gen_expr` by
+    instruction-text equality with `chibicc -S` on generated expression nests (checklib/C01.py leg b2).
+    Not covered (no jumps in Model/X86): `&&`, `||`, `?:`; assignments: `C01_value_effects` below. -/
+theorem C01_value (σ : Env) (off : Nat → Int) (e : E) (t : ITy) (code : List Ins) (v : Int) (σ' : Env) (m : State)
+    (hc : compileE σ.tys off e = some (t, code)) (hv : evalE σ e = some (v, σ'))
+    (hf : FrameHolds σ off (depthE e) m) :
     ∃ m', X86.run code m = some m' ∧ Represents t (m'.get .rax) v ∧ typeOf σ e = some t ∧
-      m'.get .rsp = m.get .rsp ∧ m'.get .rbp = m.get .rbp ∧ FrameHolds σ off (depthE e) m'
+      m'.get .rsp = m.get .rsp ∧ m'.get .rbp = m.get .rbp ∧ FrameHolds σ off (depthE e) m' ∧
+      (∀ a : BitVec 64, (m.get .rsp).toNat ≤ a.toNat → m'.mem a = m.mem a) ∧ σ' = σ := by
+  obtain ⟨hσ, m', hrun, hrep, hk⟩ := value_pure σ off e t code v σ' m (depthE e) hc hv (Nat.le_refl _) hf
+  exact ⟨m', hrun, hrep, compileE_typeOf σ off e t code hc, hk.rsp, hk.rbp, hf.keeps hk, hk.mem, hσ⟩
 
-/-- the proved fragment of `C01_value_Statement`: expressions that never touch the stack (no binary operator): a leaf
+/-- non-vacuity: `v0 + v1 * 2 > -(long)5 - v0` with `signed char v0 = -3`, `unsigned v1 = 7` in a concrete frame
+    (two stack slots needed; common types `unsigned`, `long`, `long`): compiles, has the C11 value 1, the frame holds. -/
+example : ∃ code, compileE exEnv.tys exOff exE = some (.i32, code) ∧ evalE exEnv exE = some (1, exEnv) ∧
+    depthE exE = 2 ∧ FrameHolds exEnv exOff (depthE exE) exState :=
+  ⟨_, rfl, rfl, rfl, exFrame⟩
+
+/-- one step on a value already in `%rax` (the fragment proved before `C01_value`; kept, now a special case): a leaf
     followed by any chain of casts and unary operators is `C01_load` / `C01_cast` / `C01_unary_full` / `C01_lognot`
-    applied in sequence; stated here for one step on a value already in `%rax`. -/
+    applied in sequence. -/
 theorem C01_value_partial (t t2 : ITy) (s : State) (v : Int) (h : Represents t (s.get .rax) v) :
     (∃ s', X86.run (castSeq t t2) s = some s' ∧ Represents t2 (s'.get .rax) (convert t2 v)) ∧
     (∃ s', X86.run (unSeq .ND_NOT t) s = some s' ∧ Represents .i32 (s'.get .rax) (b2i (v = 0))) ∧
